@@ -5,7 +5,7 @@
   declarative spec (`Rl/Spec/Motion.lean`, the oracle that `./check C04` evaluates on the
   implementation), for every lawful segmenter.
   * targets: character motions, word motions (anchors Start / AfterEnd, backward), line start/end,
-    character searches (`C04_char_search_*`), vertical motion (`C04_moveToLine*_dest`, `…_column_partial`);
+    character searches (`C04_char_search_*`), vertical motion (`C04_moveToLine*_dest`, `C04_moveToLine*_column`, `C04_vertical_column`);
   * spans: `C04_kill_<movement>_is_span` / `C04_copy_<movement>_is_span` for every movement except
     `ViFirstPrint` (known finding, counter-examples below), assembled in `C04_kill_is_span_partial` /
     `C04_copy_is_span_partial`. Two movements need a property of the segmenter that every UAX #29
@@ -491,21 +491,32 @@ theorem C04_word_target_beforeEnd_counterexample : ¬ C04_word_target_beforeEnd_
   simp at this
 
 
-/-! ## vertical motion -/
+/-! ## vertical motion (after the D36 repair) -/
+
+/-- what `verticalTarget` picks: a cluster boundary of the destination line at or right of the wanted
+    column `c`, or the line end -/
+theorem C04_verticalTarget_spec (S : Segmenter) (U : UData) (buf : Text) (ds de : Nat) (line : Text) (pc c : Nat) :
+    verticalTarget S U buf ds de line pc c = de ∨
+      (verticalTarget S U buf ds de line pc c ∈ bounds ds (S.seg line) ∧
+        displayCol U buf (verticalTarget S U buf ds de line pc c) pc ≥ c) := by
+  unfold verticalTarget
+  cases hf : (bounds ds (S.seg line)).find? (fun q => decide (displayCol U buf q pc ≥ c)) with
+  | none => left; rfl
+  | some q =>
+    right
+    have h1 := List.find?_some hf
+    exact ⟨List.mem_of_find?_eq_some hf, by simpa using h1⟩
 
 /-- `move_to_line_up(n)`, `n ≠ 0`, from a well-formed state: on the first line nothing happens;
     otherwise the destination is the declarative line (`n` lines up, or the first line), the cursor
-    lands inside it, on the cluster boundary with index `min col |line|` where `col` is the display
-    width of the text in front of the cursor on its line, less the prompt width when the destination
-    is the first line. -/
+    lands inside it, exactly on the declarative `verticalTarget`: the first cluster boundary of that line
+    at or right of the display column the cursor came from, else the line end. -/
 theorem C04_moveToLineUp_dest (S : Segmenter) (U : UData) (n pc : Nat) (lb lb' : LB) (r : Bool)
     (ns : List Notif) (h : WF lb) (hn : n ≠ 0) (hrun : LB.moveToLineUp S U n pc lb = .ok (r, lb', ns)) :
     (verticalDest lb.buf lb.pos n true = none ∧ r = false ∧ lb' = lb) ∨
-    ∃ ds de line cur, verticalDest lb.buf lb.pos n true = some (ds, de) ∧ r = true ∧
-      slice lb.buf ds de = .ok line ∧ slice lb.buf (lineStartOf lb.buf lb.pos) lb.pos = .ok cur ∧
-      lb'.buf = lb.buf ∧ ds ≤ lb'.pos ∧ lb'.pos ≤ de ∧
-      lb'.pos = ds + offOf (S.seg line)
-        (min (U.width cur - (if ds = 0 then pc else 0)) (S.seg line).length) := by
+    ∃ ds de line, verticalDest lb.buf lb.pos n true = some (ds, de) ∧ r = true ∧
+      slice lb.buf ds de = .ok line ∧ lb'.buf = lb.buf ∧ ds ≤ lb'.pos ∧ lb'.pos ≤ de ∧
+      lb'.pos = verticalTarget S U lb.buf ds de line pc (displayCol U lb.buf lb.pos pc) := by
   rcases vm_moveToLineUp_eval S U n pc lb h hn with ⟨h0, he⟩ | ⟨h0, ds, de, line, cur, hds, hL, hcur, he⟩
   · left
     rw [he] at hrun
@@ -514,23 +525,24 @@ theorem C04_moveToLineUp_dest (S : Segmenter) (U : UData) (n pc : Nat) (lb lb' :
   · right
     rw [he] at hrun
     cases hrun
-    refine ⟨ds, de, line, cur, ?_, rfl, hL.slice, hcur, rfl, Nat.le_add_right _ _, ?_, rfl⟩
+    have hc : displayCol U lb.buf lb.pos pc = U.width cur := by
+      simp [displayCol, hcur, h0]
+    refine ⟨ds, de, line, ?_, rfl, hL.slice, rfl, Nat.le_add_right _ _, ?_, ?_⟩
     · simp [verticalDest, h0, ← hds, hL.end_start]
-    · have := vm_offOf_le S line (min (U.width cur - (if ds = 0 then pc else 0)) (S.seg line).length)
+    · have := vm_offOf_le S line (vm_landK U (S.seg line) (U.width cur - (if ds = 0 then pc else 0)))
       have := hL.le
       simp only []
       omega
+    · rw [hc, vm_target S U pc (U.width cur) hL]
 
-/-- `move_to_line_down(n)`: same, the column includes the prompt width when the cursor is on the
-    first line, and nothing is subtracted (the destination never is the first line). -/
+/-- `move_to_line_down(n)`: same (the display column of the cursor includes the prompt width when the
+    cursor is on the first line; the destination never is the first line). -/
 theorem C04_moveToLineDown_dest (S : Segmenter) (U : UData) (n pc : Nat) (lb lb' : LB) (r : Bool)
     (ns : List Notif) (h : WF lb) (hn : n ≠ 0) (hrun : LB.moveToLineDown S U n pc lb = .ok (r, lb', ns)) :
     (verticalDest lb.buf lb.pos n false = none ∧ r = false ∧ lb' = lb) ∨
-    ∃ ds de line cur, verticalDest lb.buf lb.pos n false = some (ds, de) ∧ r = true ∧
-      slice lb.buf ds de = .ok line ∧ slice lb.buf (lineStartOf lb.buf lb.pos) lb.pos = .ok cur ∧
-      lb'.buf = lb.buf ∧ ds ≤ lb'.pos ∧ lb'.pos ≤ de ∧
-      lb'.pos = ds + offOf (S.seg line)
-        (min (U.width cur + (if lineStartOf lb.buf lb.pos = 0 then pc else 0)) (S.seg line).length) := by
+    ∃ ds de line, verticalDest lb.buf lb.pos n false = some (ds, de) ∧ r = true ∧
+      slice lb.buf ds de = .ok line ∧ lb'.buf = lb.buf ∧ ds ≤ lb'.pos ∧ lb'.pos ≤ de ∧
+      lb'.pos = verticalTarget S U lb.buf ds de line pc (displayCol U lb.buf lb.pos pc) := by
   rcases vm_moveToLineDown_eval S U n pc lb h hn with ⟨h0, he⟩ | ⟨h0, ds, de, line, cur, hde, hds0, hL, hcur, he⟩
   · left
     rw [he] at hrun
@@ -539,23 +551,28 @@ theorem C04_moveToLineDown_dest (S : Segmenter) (U : UData) (n pc : Nat) (lb lb'
   · right
     rw [he] at hrun
     cases hrun
-    refine ⟨ds, de, line, cur, ?_, rfl, hL.slice, hcur, rfl, Nat.le_add_right _ _, ?_, rfl⟩
+    have hc : displayCol U lb.buf lb.pos pc =
+        U.width cur + (if lineStartOf lb.buf lb.pos = 0 then pc else 0) := by
+      simp [displayCol, hcur]
+    refine ⟨ds, de, line, ?_, rfl, hL.slice, rfl, Nat.le_add_right _ _, ?_, ?_⟩
     · have : ¬ blen lb.buf ≤ lineEndOf lb.buf lb.pos := by omega
       simp [verticalDest, this, ← hde, hL.start_end]
     · have := vm_offOf_le S line
-        (min (U.width cur + (if lineStartOf lb.buf lb.pos = 0 then pc else 0)) (S.seg line).length)
+        (vm_landK U (S.seg line) (U.width cur + (if lineStartOf lb.buf lb.pos = 0 then pc else 0)))
       have := hL.le
       simp only []
       omega
+    · rw [hc, vm_target S U pc _ hL]
+      simp [hds0]
 
-/-- Column theorem for `move_to_line_up`, under the hypothesis that in the destination line the first
-    `k` clusters are `k` columns wide (no wide, no zero-width clusters): the executable oracle
-    `checkVerticalCol` is satisfied — same display column, or the end of a shorter line, or the start
-    of the first line when the prompt already reaches past the column. -/
-theorem C04_moveToLineUp_column_partial (S : Segmenter) (U : UData) (n pc : Nat) (lb lb' : LB) (r : Bool)
-    (ns : List Notif) (h : WF lb) (hn : n ≠ 0) (hrun : LB.moveToLineUp S U n pc lb = .ok (r, lb', ns))
-    (hw : ∀ ds de line, verticalDest lb.buf lb.pos n true = some (ds, de) → slice lb.buf ds de = .ok line →
-      ∀ k, k ≤ (S.seg line).length → U.width ((S.seg line).take k).flatten = k) :
+/-- Column theorem for `move_to_line_up`, for EVERY lawful segmenter and every width function (wide,
+    zero-width clusters included): the executable oracle `checkVerticalCol` is satisfied. "Same display
+    column" means: the first cluster boundary of the destination line whose display column (width of the
+    text before it, plus the prompt on the first line) is at or right of the cursor's; so exactly the
+    cursor's column whenever a boundary has it, just after a wide cluster that straddles it, and the line
+    end when the line is too short. -/
+theorem C04_moveToLineUp_column (S : Segmenter) (U : UData) (n pc : Nat) (lb lb' : LB) (r : Bool)
+    (ns : List Notif) (h : WF lb) (hn : n ≠ 0) (hrun : LB.moveToLineUp S U n pc lb = .ok (r, lb', ns)) :
     checkVerticalCol S U lb n true pc lb'.pos = none := by
   rcases vm_moveToLineUp_eval S U n pc lb h hn with ⟨h0, he⟩ | ⟨h0, ds, de, line, cur, hds, hL, hcur, he⟩
   · rw [he] at hrun
@@ -568,13 +585,11 @@ theorem C04_moveToLineUp_column_partial (S : Segmenter) (U : UData) (n pc : Nat)
       simp [verticalDest, h0, ← hds, hL.end_start]
     have hc : displayCol U lb.buf lb.pos pc = U.width cur := by
       simp [displayCol, hcur, h0]
-    exact vm_check S U lb n true pc ds de line (U.width cur) _ hn hvd hL (hw ds de line hvd hL.slice) hc rfl
+    exact vm_check S U lb n true pc ds de line (U.width cur) _ hn hvd hL hc rfl
 
-/-- Column theorem for `move_to_line_down`, same hypothesis on the destination line. -/
-theorem C04_moveToLineDown_column_partial (S : Segmenter) (U : UData) (n pc : Nat) (lb lb' : LB) (r : Bool)
-    (ns : List Notif) (h : WF lb) (hn : n ≠ 0) (hrun : LB.moveToLineDown S U n pc lb = .ok (r, lb', ns))
-    (hw : ∀ ds de line, verticalDest lb.buf lb.pos n false = some (ds, de) → slice lb.buf ds de = .ok line →
-      ∀ k, k ≤ (S.seg line).length → U.width ((S.seg line).take k).flatten = k) :
+/-- Column theorem for `move_to_line_down`, likewise without any hypothesis on widths. -/
+theorem C04_moveToLineDown_column (S : Segmenter) (U : UData) (n pc : Nat) (lb lb' : LB) (r : Bool)
+    (ns : List Notif) (h : WF lb) (hn : n ≠ 0) (hrun : LB.moveToLineDown S U n pc lb = .ok (r, lb', ns)) :
     checkVerticalCol S U lb n false pc lb'.pos = none := by
   rcases vm_moveToLineDown_eval S U n pc lb h hn with ⟨h0, he⟩ | ⟨h0, ds, de, line, cur, hde, hds0, hL, hcur, he⟩
   · rw [he] at hrun
@@ -589,68 +604,49 @@ theorem C04_moveToLineDown_column_partial (S : Segmenter) (U : UData) (n pc : Na
     have hc : displayCol U lb.buf lb.pos pc =
         U.width cur + (if lineStartOf lb.buf lb.pos = 0 then pc else 0) := by
       simp [displayCol, hcur]
-    exact vm_check S U lb n false pc ds de line _ _ hn hvd hL (hw ds de line hvd hL.slice) hc
-      (by simp [hds0])
+    exact vm_check S U lb n false pc ds de line _ _ hn hvd hL hc (by simp [hds0])
 
-/-! ### what is NOT true of the current tree -/
-
-/-- FULL statement "a vertical motion keeps the display column" (no hypothesis on the widths of the
-    clusters of the destination line), phrased with the executable oracle `checkVerticalCol`.  Not a
-    theorem on the current tree: `move_to_line_up` / `move_to_line_down` use the display *width* of the
-    text in front of the cursor as a *cluster index* into the destination line, so wide (or
-    zero-width) clusters there shift the landing column.  Proved above under the width-1 hypothesis
-    (`C04_moveToLineUp_column_partial`, `C04_moveToLineDown_column_partial`). -/
-def C04_vertical_column_statement_for (up : Bool) : Prop :=
-  ∀ (S : Segmenter) (U : UData) (n pc : Nat) (lb lb' : LB) (r : Bool) (ns : List Notif), WF lb → n ≠ 0 →
+/-- the statement "a vertical motion keeps the display column" in one piece, phrased with the executable
+    oracle `checkVerticalCol` (it was refuted before the D36 repair: the code used the display width as a
+    cluster index) -/
+def C04_vertical_column_statement : Prop :=
+  ∀ (up : Bool) (S : Segmenter) (U : UData) (n pc : Nat) (lb lb' : LB) (r : Bool) (ns : List Notif), WF lb → n ≠ 0 →
     (if up then LB.moveToLineUp S U n pc lb else LB.moveToLineDown S U n pc lb) = .ok (r, lb', ns) →
     checkVerticalCol S U lb n up pc lb'.pos = none
 
-def C04_vertical_column_statement : Prop := ∀ up, C04_vertical_column_statement_for up
+/-- … is now a theorem -/
+theorem C04_vertical_column : C04_vertical_column_statement := by
+  intro up S U n pc lb lb' r ns h hn hrun
+  cases up with
+  | true => exact C04_moveToLineUp_column S U n pc lb lb' r ns h hn (by simpa using hrun)
+  | false => exact C04_moveToLineDown_column S U n pc lb lb' r ns h hn (by simpa using hrun)
 
-/-- Unicode data for the counter-example: `'W'` is two columns wide, every other character one -/
+/-! ### non-vacuity and regression witnesses (the inputs that refuted the statement before D36) -/
+
+/-- Unicode data with a wide character: `'W'` is two columns wide, every other character one -/
 def C04_wideU : UData :=
   ⟨fun c => c.isAlphanum, fun c => c == ' ', fun c => [c], fun c => [c],
    fun t => (t.map (fun c => if c == 'W' then 2 else 1)).sum⟩
 
-/-- buffer "WW\nabcd", cursor after "ab" (display column 2), one line up: the model lands at the end of
-    "WW" (display column 4) although display column 2 — after the first 'W' — exists. -/
-theorem C04_vertical_column_counterexample_up : ¬ C04_vertical_column_statement_for true := by
-  intro hall
-  have e1 : LB.moveToLineUp charSeg C04_wideU 1 0 ⟨['W', 'W', '\n', 'a', 'b', 'c', 'd'], 5, 16, false⟩ =
-      .ok (true, ⟨['W', 'W', '\n', 'a', 'b', 'c', 'd'], 2, 16, false⟩, []) := by rfl
-  have hwf : WF ⟨['W', 'W', '\n', 'a', 'b', 'c', 'd'], 5, 16, false⟩ :=
-    ⟨['W', 'W', '\n', 'a', 'b'], ['c', 'd'], rfl, rfl⟩
-  have := hall charSeg C04_wideU 1 0 _ _ _ _ hwf (by decide) e1
-  have e2 : checkVerticalCol charSeg C04_wideU ⟨['W', 'W', '\n', 'a', 'b', 'c', 'd'], 5, 16, false⟩ 1 true 0 2 =
-      some "vertical-wrong-column" := by rfl
-  rw [e2] at this
-  cases this
-
-/-- buffer "abcd\nWW", cursor after "ab", one line down: lands at the end of "WW" (column 4). -/
-theorem C04_vertical_column_counterexample_down : ¬ C04_vertical_column_statement_for false := by
-  intro hall
-  have e1 : LB.moveToLineDown charSeg C04_wideU 1 0 ⟨['a', 'b', 'c', 'd', '\n', 'W', 'W'], 2, 16, false⟩ =
-      .ok (true, ⟨['a', 'b', 'c', 'd', '\n', 'W', 'W'], 7, 16, false⟩, []) := by rfl
-  have hwf : WF ⟨['a', 'b', 'c', 'd', '\n', 'W', 'W'], 2, 16, false⟩ :=
-    ⟨['a', 'b'], ['c', 'd', '\n', 'W', 'W'], rfl, rfl⟩
-  have := hall charSeg C04_wideU 1 0 _ _ _ _ hwf (by decide) e1
-  have e2 : checkVerticalCol charSeg C04_wideU ⟨['a', 'b', 'c', 'd', '\n', 'W', 'W'], 2, 16, false⟩ 1 false 0 7 =
-      some "vertical-wrong-column" := by rfl
-  rw [e2] at this
-  cases this
-
-theorem C04_vertical_column_counterexample : ¬ C04_vertical_column_statement :=
-  fun hall => C04_vertical_column_counterexample_up (hall true)
-
-/-! ### non-vacuity -/
-
+/-- "WW\nabcd", cursor after "ab" (display column 2), one line up: after the first 'W' (was: end of "WW") -/
+example : LB.moveToLineUp charSeg C04_wideU 1 0 ⟨['W', 'W', '\n', 'a', 'b', 'c', 'd'], 5, 16, false⟩ =
+    .ok (true, ⟨['W', 'W', '\n', 'a', 'b', 'c', 'd'], 1, 16, false⟩, []) := by rfl
+/-- "abcd\nWW", cursor after "ab", one line down: after the first 'W' (was: end of "WW") -/
+example : LB.moveToLineDown charSeg C04_wideU 1 0 ⟨['a', 'b', 'c', 'd', '\n', 'W', 'W'], 2, 16, false⟩ =
+    .ok (true, ⟨['a', 'b', 'c', 'd', '\n', 'W', 'W'], 6, 16, false⟩, []) := by rfl
+/-- a wide cluster straddles the column: "Wx\nab", cursor after "a" (column 1), up: just after the 'W' (column 2) -/
+example : LB.moveToLineUp charSeg C04_wideU 1 0 ⟨['W', 'x', '\n', 'a', 'b'], 4, 16, false⟩ =
+    .ok (true, ⟨['W', 'x', '\n', 'a', 'b'], 1, 16, false⟩, []) := by rfl
+example : verticalTarget charSeg C04_wideU ['W', 'x', '\n', 'a', 'b'] 0 2 ['W', 'x'] 0 1 = 1 := by rfl
 example : verticalDest ['W', 'W', '\n', 'a', 'b', 'c', 'd'] 5 1 true = some (0, 2) := by rfl
 example : verticalDest ['a', '\n', 'b', '\n', 'c', 'd'] 0 5 false = some (4, 6) := by rfl
 example : displayCol C04_wideU ['W', 'W', '\n', 'a', 'b', 'c', 'd'] 1 3 = 5 := by rfl
-/-- a landing position the oracle accepts in the counter-example's situation: after the first 'W' -/
+/-- the old landing position (end of "WW") is rejected, the new one accepted -/
+example : checkVerticalCol charSeg C04_wideU ⟨['W', 'W', '\n', 'a', 'b', 'c', 'd'], 5, 16, false⟩ 1 true 0 2 =
+    some "vertical-wrong-column" := by rfl
 example : checkVerticalCol charSeg C04_wideU ⟨['W', 'W', '\n', 'a', 'b', 'c', 'd'], 5, 16, false⟩ 1 true 0 1 = none := by rfl
-/-- width-1 destination: the model's landing position is accepted -/
-example : checkVerticalCol charSeg C04_wideU ⟨['x', 'y', 'z', '\n', 'a', 'b', 'c', 'd'], 6, 16, false⟩ 1 true 0 2 = none := by rfl
+/-- prompt wider than the column: the start of the first line -/
+example : checkVerticalCol charSeg C04_wideU ⟨['x', 'y', 'z', '\n', 'a', 'b', 'c', 'd'], 5, 16, false⟩ 1 true 3 0 = none := by rfl
 
 
 /-! ### non-vacuity (words) -/
